@@ -216,19 +216,8 @@ theorem tame_execFg (s : St) (neg : Bool) (prog : Bytes) (hargs : List Bytes) :
 
 theorem tame_exec (failed : Bool) (s : St) (neg : Bool) (args : List Bytes) : Tame s (cmdExec failed s neg args) := by
   unfold cmdExec
-  split
-  · exact tame_fatal s
-  · split
-    · exact tame_fatal s
-    · split
-      · exact tame_unm s
-      · split
-        · split
-          · exact tame_fatal s
-          · split
-            · simp [Tame]
-            · exact tame_execBg ..
-        · exact tame_execFg ..
+  repeat' split
+  all_goals first | exact tame_fatal s | exact tame_unm s | exact tame_execBg .. | exact tame_execFg .. | (simp [Tame]; done)
 
 theorem tame_unmodelled (failed : Bool) (s : St) (neg : Bool) (args : List Bytes) : Tame s (cmdUnmodelled failed s neg args) :=
   tame_unm s
